@@ -38,7 +38,7 @@ def check_memory(c):
             break
         if w <= 14 and (n < 3 or n % mod in (0, mod - 1)):
             PacketSeqCtrl(SequenceFlags.UNSEGMENTED, v)  # must be acceptable as a sequence count
-    return devs
+    return devs, calls
 
 
 def enum_memory(tier, shard, nshards, rng):
@@ -200,7 +200,7 @@ def check_file_long(c):
                 devs = m.invariant(s)
                 if devs:
                     return [Dev(d.sub, f"after call {n}: {d.detail}") for d in devs]
-        return devs
+        return devs, c["calls"]
     finally:
         s.close()
 
